@@ -69,6 +69,7 @@ type FuncVerifier struct {
 	locks    *lockCfg
 	allows   []frameAllow
 	allowsDone bool
+	localHints map[*ssa.Alloc]string // SMT name hints of named locals (names.go)
 	renamed    []string // contract names resolved through contracts/names.json (names.go)
 	inlineRets *[]*State // non-nil while a callee is executed in place (inline.go)
 	writeAllows []frameAllow
